@@ -25,7 +25,7 @@ WellFormed ==
           /\ T.cert[n].kind \in Kinds
           /\ T.cert[n].binds \in BOOLEAN /\ T.cert[n].keyValid \in BOOLEAN
           /\ T.cert[n].time \in {"Valid", "Expired", "NotYet", "na"}
-    /\ T.rot.kind = "x509" /\ {"key", "curve"} \subseteq DOMAIN T.rot
+    /\ T.rot.kind \in {"x509", "v1root"} /\ {"key", "curve"} \subseteq DOMAIN T.rot
     /\ T.valid \in BOOLEAN /\ T.loaded \in BOOLEAN
     /\ T.valid => T.loaded
 
